@@ -260,6 +260,26 @@ def equiv_pass(run, cases, caps, prop, log):
     return n, eq, unknown, samples
 
 
+def text_tie_search(run, prop):
+    """when the text-pipeline tie is broken, search for a string on which the regex source the code built and the one the
+    property prescribes (model) differ under the regex crate; a witness is a failing input, no witness leaves the difference
+    recorded in the evidence only"""
+    pairs = TP._LAST.get('pairs') or []
+    if not pairs:
+        return
+    found = TP.distinguish(pairs, refmatch)
+    run.coverage['text_pipeline_predicted']['distinguishing_inputs_found'] = len(found)
+    for (pr, w, x, y) in found:
+        run.violation('text-splice', dict(definition=pr['definition'], family=pr.get('family'),
+                                          regex_source_prescribed=pr['model'][2].decode('utf-8', 'replace'), regex_source_built_by_the_code=pr['code'][2].decode('utf-8', 'replace'),
+                                          flags_unicode_icase=dict(prescribed=pr['model'][:2], code=pr['code'][:2]),
+                                          input_hex=None if w is None else (w.hex() or '-'), input_text=None if w is None else w.decode('utf-8', 'replace'),
+                                          prescribed_matches=x, code_matches=y,
+                                          what='the regex source handed to the regex parser is not the one the property prescribes (verbatim / (?i) literal, scoped textual inclusion of the '
+                                               'subpattern source) and the two differ on this string under the regex crate'),
+                      key='textsplice|%s|%s' % (pr['definition'], pr['code'][2].hex()))
+
+
 def check_c10(tier, seed, log=print):
     run = start('C10', tier, seed)
     R = random.Random(seed)
@@ -335,6 +355,7 @@ def check_c10(tier, seed, log=print):
                                               what='the pattern logos compiled (captured HIR, Lean semantics) and the regex crate disagree on this string'),
                           key='rc|%s|%s' % (cases[i]['src'], hexs(w)))
     run.coverage['text_pipeline_predicted'] = TP.tie(cases, caps, P.run_lean)
+    text_tie_search(run, 'C10')
     run.coverage.update(dict(evaluations=n + tc, distinct_nontrivial=eq, equivalences_proved=eq, undecided=unknown, literal_hirs_checked=lit_ok,
                              regex_crate_comparisons=tc,
                              rule='tokens (str and byte-string literals over metacharacters, cased non-ASCII, arbitrary bytes), regexes and skips, with and without ignore(case), each paired in one enum with an independently written reference form '
@@ -351,6 +372,7 @@ def check_c11(tier, seed, log=print):
     caps = P.run_capture([c['src'] for c in cases])
     n, eq, unknown, samples = equiv_pass(run, cases, caps, 'C11', log)
     run.coverage['text_pipeline_predicted'] = TP.tie(cases, caps, P.run_lean)
+    text_tie_search(run, 'C11')
     run.coverage.update(dict(evaluations=n, distinct_nontrivial=eq, equivalences_proved=eq, undecided=unknown,
                              rule='definitions with 1-3 subpatterns (alternations, inline flags, nested references, byte-string subpatterns), referenced at the start, middle and end of a pattern; '
                                   'each paired with the pattern obtained by independent inlining as (?u:src) / (?-u:src); equivalence decided for all strings by equivB; undefined names must be rejected; non-trivial = equivalence established',
